@@ -136,6 +136,43 @@ class SymAPI(object):
     def fresh_folder(self, name="idx"):
         return "/symfs/%s" % name
 
+    def write_log(self):
+        """program-ordered events on the files of the shim file system since the path began:
+        [basename, 'create'] or [basename, offset, data, was_append]"""
+        import os
+        out = []
+        for path, off, items, app in self.fs().log:
+            if off == "truncate":
+                out.append([os.path.basename(path), "create"])
+            else:
+                out.append([os.path.basename(path), off, SymBytes(items), app])
+        return out
+
+    def materialise(self, folder, events, torn=None):
+        """build `folder` holding exactly the given events; torn = (event, r): the first r
+        bytes (r may be symbolic) of that append follow"""
+        import os
+        fs = self.fs()
+        fs.logging = False
+        fs.dirs.add(folder)
+        for ev in events:
+            path = os.path.join(folder, ev[0])
+            if ev[1] == "create":
+                fs.files[path] = []
+            else:
+                buf = fs.files[path]
+                items = list(ev[2].items)
+                if ev[1] > len(buf):
+                    buf.extend([0] * (ev[1] - len(buf)))
+                buf[ev[1]:ev[1] + len(items)] = items
+        if torn is not None:
+            ev, r = torn
+            path = os.path.join(folder, ev[0])
+            if isinstance(r, SymInt):
+                fs.torn[path] = (r, tuple(ev[2].items))
+            else:
+                fs.files[path].extend(list(ev[2].items)[:r])
+
     @property
     def struct(self):
         from symx.shims import struct_shim
